@@ -83,7 +83,11 @@ func (p *ContainerPlan) Simpler() []Plan {
 	if len(p.Tokens) > 0 {
 		for j := range p.Tokens {
 			j := j
-			mut(func(q *ContainerPlan) bool { q.Tokens = append(q.Tokens[:j:j], q.Tokens[j+1:]...); q.AddOrder = nil; return true })
+			mut(func(q *ContainerPlan) bool {
+				q.Tokens = append(q.Tokens[:j:j], q.Tokens[j+1:]...)
+				q.AddOrder = nil
+				return true
+			})
 		}
 	}
 	for i, s := range p.Steps {
@@ -725,14 +729,14 @@ func (e *containerExec) one(s *CStep) {
 		// a hostile container frame: odd CAR headers, odd ctn-v1 shapes
 		if isCar {
 			hdrs := []*CB{
-				cbMap(cbText("roots"), cbInt(1), cbText("version"), cbInt(1)),                 // roots not a list
-				cbMap(cbText("roots"), cbArray(), cbText("version"), cbText("1")),             // version not an int
-				cbArray(cbInt(1), cbInt(2)),                                                    // header not a map
-				cbInt(1),                                                                      // header a scalar
-				cbMap(cbText("roots"), cbArray(cbText("x")), cbText("version"), cbInt(1)),     // root not a link
-				cbMap(cbText("roots"), cbArray(), cbText("version"), cbInt(2)),                // other version
-				cbMap(cbText("roots"), cbArray(), cbText("version"), cbUint(1<<63)),           // version beyond int64
-				cbMap(cbText("version"), cbInt(1), cbText("x"), cbInt(1)),                     // no roots
+				cbMap(cbText("roots"), cbInt(1), cbText("version"), cbInt(1)),             // roots not a list
+				cbMap(cbText("roots"), cbArray(), cbText("version"), cbText("1")),         // version not an int
+				cbArray(cbInt(1), cbInt(2)),                                               // header not a map
+				cbInt(1),                                                                  // header a scalar
+				cbMap(cbText("roots"), cbArray(cbText("x")), cbText("version"), cbInt(1)), // root not a link
+				cbMap(cbText("roots"), cbArray(), cbText("version"), cbInt(2)),            // other version
+				cbMap(cbText("roots"), cbArray(), cbText("version"), cbUint(1<<63)),       // version beyond int64
+				cbMap(cbText("version"), cbInt(1), cbText("x"), cbInt(1)),                 // no roots
 				cbMap(cbText("roots"), cbNull(), cbText("version"), cbInt(1)),
 				cbMap(cbText("roots"), cbArray(cbLink([]byte{1, 0x55, 0, 0})), cbText("version"), cbInt(1), cbText("extra"), cbInt(1)),
 			}
@@ -747,12 +751,12 @@ func (e *containerExec) one(s *CStep) {
 				entriesCB = append(entriesCB, cbBytes(en))
 			}
 			shapes := []*CB{
-				cbMap(cbInt(1), cbArray(entriesCB...)),                                   // version key not a string
-				cbMap(cbText("ctn-v1"), cbMap()),                                         // value not a list
+				cbMap(cbInt(1), cbArray(entriesCB...)),                                     // version key not a string
+				cbMap(cbText("ctn-v1"), cbMap()),                                           // value not a list
 				cbMap(cbText("ctn-v1"), cbArray(append([]*CB{cbInt(1)}, entriesCB...)...)), // an entry that is not bytes, first
 				cbMap(cbText("ctn-v1"), cbArray(append(append([]*CB{}, entriesCB...), cbNull())...)),
 				cbMap(cbText("ctn-v1"), cbArray(entriesCB...), cbText("ctn-v2"), cbArray()), // two version keys
-				cbArray(entriesCB...),                                                    // not a map at all
+				cbArray(entriesCB...), // not a map at all
 				cbMap(cbText("ctn-v2"), cbArray(entriesCB...)),
 				cbText("ctn-v1"),
 				cbMap(cbText("ctn-v1"), cbArray(append(append([]*CB{}, entriesCB...), cbArray(cbBytes([]byte{1})))...)),
